@@ -176,15 +176,21 @@ func (vc *VC) generate() (err error) {
 		if c.Kind == "track_init" || c.Kind == "tracks" {
 			ctx := vc.ctx(vc.entry, vc.entry)
 			for _, m := range c.Mods {
-				comp, ref := ctx.initTarget(m)
-				if !vc.tracked(comp) {
-					vc.trackInit = append(vc.trackInit, comp)
-				}
-				ic := "I." + comp
-				if c.Kind == "track_init" {
-					vc.setComp(vc.entry, ic, "(Array Int Bool)", app("store", vc.comp(vc.entry, ic, "(Array Int Bool)"), ref, "false"))
-				} else {
-					vc.compEntry(ic, "(Array Int Bool)")
+				// fields(p) tracks every field of the struct, including ones added later
+				for _, t := range ctx.modTargets(m) {
+					if t.whole {
+						panic(specErr(m, "track_init needs fields of one object"))
+					}
+					comp, ref := t.comp, t.ref
+					if !vc.tracked(comp) {
+						vc.trackInit = append(vc.trackInit, comp)
+					}
+					ic := "I." + comp
+					if c.Kind == "track_init" {
+						vc.setComp(vc.entry, ic, "(Array Int Bool)", app("store", vc.comp(vc.entry, ic, "(Array Int Bool)"), ref, "false"))
+					} else {
+						vc.compEntry(ic, "(Array Int Bool)")
+					}
 				}
 			}
 		}
@@ -363,7 +369,10 @@ func (vc *VC) edge(from, to *ssa.BasicBlock) Term {
 
 func (vc *VC) block(b *ssa.BasicBlock) {
 	vc.curBlock = b
-	if b.Index == 0 {
+	if b.Index == 0 && len(vc.inl) > 0 {
+		// entry of an inlined callee: continues the caller's path
+		vc.reach[b] = vc.curReach
+	} else if b.Index == 0 {
 		vc.reach[b] = "true"
 		vc.curReach = "true"
 	} else {
@@ -408,11 +417,20 @@ func (vc *VC) merge(b *ssa.BasicBlock, preds []*ssa.BasicBlock) {
 	}
 	vc.reach[b] = vc.define("reach", sBool, or(edges...))
 	vc.curReach = vc.reach[b]
+	var states []*State
+	for _, p := range preds {
+		states = append(states, vc.exit[p])
+	}
+	vc.cur = vc.mergeStates(edges, states)
+}
+
+// mergeStates joins the states of several paths, selected by their (mutually exclusive) conditions.
+func (vc *VC) mergeStates(edges []Term, states []*State) *State {
 	st := &State{cells: map[*ssa.Alloc]Term{}, comps: map[string]Term{}}
 	// cells
 	cellSet := map[*ssa.Alloc]bool{}
-	for _, p := range preds {
-		for c := range vc.exit[p].cells {
+	for _, p := range states {
+		for c := range p.cells {
 			cellSet[c] = true
 		}
 	}
@@ -420,12 +438,17 @@ func (vc *VC) merge(b *ssa.BasicBlock, preds []*ssa.BasicBlock) {
 	for c := range cellSet {
 		cells = append(cells, c)
 	}
-	sort.Slice(cells, func(i, j int) bool { return cells[i].Name() < cells[j].Name() })
+	sort.Slice(cells, func(i, j int) bool {
+		if cells[i].Parent() != cells[j].Parent() {
+			return cells[i].Parent().Name() < cells[j].Parent().Name()
+		}
+		return cells[i].Name() < cells[j].Name()
+	})
 	for _, c := range cells {
 		var ts []Term
 		missing := false
-		for _, p := range preds {
-			t, ok := vc.exit[p].cells[c]
+		for _, p := range states {
+			t, ok := p.cells[c]
 			if !ok {
 				missing = true
 				break
@@ -438,8 +461,8 @@ func (vc *VC) merge(b *ssa.BasicBlock, preds []*ssa.BasicBlock) {
 		st.cells[c] = vc.mergeTerms("c."+c.Comment, vc.reg.sortOf(deref(c.Type())), edges, ts)
 	}
 	compSet := map[string]bool{}
-	for _, p := range preds {
-		for c := range vc.exit[p].comps {
+	for _, p := range states {
+		for c := range p.comps {
 			compSet[c] = true
 		}
 	}
@@ -450,12 +473,12 @@ func (vc *VC) merge(b *ssa.BasicBlock, preds []*ssa.BasicBlock) {
 	sort.Strings(comps)
 	for _, c := range comps {
 		var ts []Term
-		for _, p := range preds {
-			ts = append(ts, vc.comp(vc.exit[p], c, vc.compSort[c]))
+		for _, p := range states {
+			ts = append(ts, vc.comp(p, c, vc.compSort[c]))
 		}
 		st.comps[c] = vc.mergeTerms(compPrefix(c), vc.compSort[c], edges, ts)
 	}
-	vc.cur = st
+	return st
 }
 
 func (vc *VC) mergeTerms(prefix, sort string, edges, ts []Term) Term {
@@ -494,6 +517,7 @@ func (vc *VC) loopHead(li *loopInfo) {
 	ctx := vc.ctx(vc.cur, vc.entry)
 	ctx.loopScope = pos
 	ctx.loopSeen = li.seen
+	ctx.curLoop = li
 	for i, c := range li.invs {
 		vc.oblige("inv-init", fmt.Sprintf("%d.%s", li.ordinal, labelOr(c.Label, i)), ctx.formula(c.E), pos)
 	}
@@ -540,6 +564,7 @@ func (vc *VC) loopHead(li *loopInfo) {
 	ctx = vc.ctx(vc.cur, vc.entry)
 	ctx.loopScope = pos
 	ctx.loopSeen = li.seen
+	ctx.curLoop = li
 	for _, c := range li.invs {
 		vc.assume(ctx.formula(c.E))
 	}
@@ -569,6 +594,7 @@ func (vc *VC) backEdge(li *loopInfo, cond Term) {
 	ctx := vc.ctx(vc.cur, vc.entry)
 	ctx.loopScope = pos
 	ctx.loopSeen = li.seen
+	ctx.curLoop = li
 	for i, c := range li.invs {
 		vc.oblige("inv-pres", fmt.Sprintf("%d.%s", li.ordinal, labelOr(c.Label, i)), ctx.formula(c.E), pos)
 	}
@@ -592,7 +618,7 @@ func (vc *VC) backEdge(li *loopInfo, cond Term) {
 				vc.oblige("loopframe", fmt.Sprintf("%d.%s", li.ordinal, c), eq(cur, old), pos)
 				continue
 			}
-			conds := []Term{app("<", rootOf("r"), preNext)}
+			conds := []Term{app("<", "0", rootOf("r")), app("<", rootOf("r"), preNext)}
 			for _, a := range li.frameAllowed[c] {
 				conds = append(conds, not(eq("r", a)))
 			}
@@ -1561,7 +1587,15 @@ func (vc *VC) binop(x *ssa.BinOp) {
 	t := x.X.Type()
 	switch {
 	case isFloat(t):
-		vc.setVal(x, vc.floatOp(x.Op, a, b))
+		r := vc.floatOp(x.Op, a, b)
+		if isFloat32(t) {
+			switch x.Op {
+			case token.ADD, token.SUB, token.MUL, token.QUO:
+				// the float64 result rounded to float32 is the float32 result (53 >= 2*24+2: double rounding is innocuous)
+				r = vc.round32(r)
+			}
+		}
+		vc.setVal(x, r)
 	case isString(t):
 		switch x.Op {
 		case token.ADD:
@@ -1631,6 +1665,19 @@ func (vc *VC) binop(x *ssa.BinOp) {
 			panic(unsupported("integer op " + x.Op.String()))
 		}
 	default:
+		if _, isSlice := t.Underlying().(*types.Slice); isSlice {
+			// a slice can only be compared with nil: the data pointer is tested
+			other := a
+			if c, ok := x.X.(*ssa.Const); ok && c.Value == nil {
+				other = b
+			}
+			r := eq(app("ys.arr", other), "0")
+			if x.Op == token.NEQ {
+				r = not(r)
+			}
+			vc.setVal(x, r)
+			return
+		}
 		// pointers, interfaces, channels, type-parameter values: only equality
 		switch x.Op {
 		case token.EQL:
@@ -1727,10 +1774,13 @@ func (vc *VC) convert(x *ssa.Convert) {
 		vc.assume(and(app("<=", rg[0], r), app("<=", r, rg[1])))
 		vc.vals[x] = r
 	case isFloat(from) && isFloat(to):
-		if typeKey(from.Underlying()) != typeKey(to.Underlying()) {
-			panic(unsupported("float32 conversion"))
+		// float32 values are carried in the Float64 sort (every float32 is a float64): widening is the
+		// identity, narrowing rounds to the nearest float32
+		if isFloat32(to) && !isFloat32(from) {
+			vc.setVal(x, vc.round32(v))
+		} else {
+			vc.vals[x] = v
 		}
-		vc.vals[x] = v
 	case isString(to) && isInteger(from):
 		vc.setVal(x, app("str.from_code", v))
 		vc.assumes["string(rune) restricted to code points below 256 that encode as one byte"] = true
@@ -1740,11 +1790,19 @@ func (vc *VC) convert(x *ssa.Convert) {
 		// []rune(s), []byte(s): abstract conversion functions
 		et := to.Underlying().(*types.Slice).Elem()
 		fn := "ys.str2" + typeKey(et)
-		vc.reg.decl(fn, fmt.Sprintf("(declare-fun %s (String) (Array Int Int))\n(declare-fun %s.len (String) Int)\n(assert (forall ((s String)) (! (and (<= 0 (%s.len s)) (<= (%s.len s) (str.len s)) (=> (= (str.len s) 0) (= (%s.len s) 0)) (=> (> (str.len s) 0) (> (%s.len s) 0))) :pattern ((%s.len s)))))", sym(fn), sym(fn), sym(fn), sym(fn), sym(fn), sym(fn), sym(fn)))
+		lenFn := sym(fn) + ".len"
+		vc.reg.decl(fn, fmt.Sprintf("(declare-fun %s (String) (Array Int Int))", sym(fn)))
+		if b, ok := et.Underlying().(*types.Basic); ok && b.Kind() == types.Int32 {
+			lenFn = "ys.x.runeLen" // the same function as runeLen(s) in contracts
+			vc.reg.decl("ys.x.runeLen", "(declare-fun ys.x.runeLen (String) Int)")
+		} else {
+			vc.reg.decl(lenFn, fmt.Sprintf("(declare-fun %s (String) Int)", lenFn))
+		}
+		vc.reg.decl(lenFn+".ax", fmt.Sprintf("(assert (forall ((s String)) (! (and (<= 0 (%s s)) (<= (%s s) (str.len s)) (=> (= (str.len s) 0) (= (%s s) 0)) (=> (> (str.len s) 0) (> (%s s) 0))) :pattern ((%s s)))))", lenFn, lenFn, lenFn, lenFn, lenFn))
 		r := vc.alloc(vc.cur)
 		comp, cs := vc.elemsComp(et)
 		vc.setComp(vc.cur, comp, cs, app("store", vc.comp(vc.cur, comp, cs), r, app(sym(fn), v)))
-		n := vc.define("n", sInt, app(sym(fn)+".len", v))
+		n := vc.define("n", sInt, app(lenFn, v))
 		vc.setVal(x, app("ys.mkslice", r, "0", n, n))
 	case isString(to):
 		// string([]rune), string([]byte)
@@ -1753,6 +1811,10 @@ func (vc *VC) convert(x *ssa.Convert) {
 		vc.reg.decl(fn, fmt.Sprintf("(declare-fun %s ((Array Int Int) Int Int) String)", fn))
 		comp, cs := vc.elemsComp(et)
 		vc.setVal(x, app(fn, app("select", vc.comp(vc.cur, comp, cs), app("ys.arr", v)), app("ys.off", v), app("ys.len", v)))
+		if b, ok := et.Underlying().(*types.Basic); ok && b.Kind() == types.Uint8 {
+			// string([]byte): one byte per element
+			vc.assume(eq(app("str.len", vc.vals[x]), app("ys.len", v)))
+		}
 	default:
 		if _, ok := to.Underlying().(*types.Pointer); ok {
 			vc.vals[x] = v
@@ -1760,6 +1822,20 @@ func (vc *VC) convert(x *ssa.Convert) {
 		}
 		panic(unsupported(fmt.Sprintf("conversion %s -> %s", from, to)))
 	}
+}
+
+func isFloat32(t types.Type) bool {
+	b, ok := t.Underlying().(*types.Basic)
+	return ok && b.Kind() == types.Float32
+}
+
+// round32: the nearest float32 (ties to even), as a Float64 term.
+func (vc *VC) round32(v Term) Term {
+	if vc.floatMode == "ieee" {
+		return fmt.Sprintf("((_ to_fp 11 53) RNE ((_ to_fp 8 24) RNE %s))", v)
+	}
+	vc.reg.decl("ys.r32", "(declare-fun ys.r32 (Float64) Float64)")
+	return app("ys.r32", v)
 }
 
 // convFns declares the float<->int conversion functions. In ieee mode they are constrained by
@@ -1803,6 +1879,18 @@ func (vc *VC) intConv(v Term, to types.Type, pos token.Pos) Term {
 // ---- return ----------------------------------------------------------------------------------------
 
 func (vc *VC) ret(x *ssa.Return) {
+	if len(vc.inl) > 0 {
+		// return of an inlined callee: the path continues in the caller
+		f := vc.inl[len(vc.inl)-1]
+		var rs []Term
+		for _, r := range x.Results {
+			rs = append(rs, vc.val(r))
+		}
+		f.retReach = append(f.retReach, vc.curReach)
+		f.retState = append(f.retState, vc.cur)
+		f.retVals = append(f.retVals, rs)
+		return
+	}
 	vc.rets++
 	k := vc.rets - 1
 	var rs []Term
@@ -1820,6 +1908,11 @@ func (vc *VC) ret(x *ssa.Return) {
 	vc.retReach = append(vc.retReach, vc.curReach)
 	for i, c := range vc.decl.Clauses {
 		if c.Kind == "ensures" {
+			if strings.HasPrefix(c.Label, "assumed:") {
+				// visible to callers, not an obligation of the body: listed as an assumption
+				vc.assumes["assumed postcondition of "+vc.key+": "+strings.TrimPrefix(c.Label, "assumed:")] = true
+				continue
+			}
 			vc.oblige("ensures", fmt.Sprintf("%s@ret%d", labelOr(c.Label, i), k), ctx.formula(c.E), x.Pos())
 		}
 	}
